@@ -208,7 +208,16 @@ fn worker<P: Property>(args: &Args) -> i32 {
         }
         res.runs += 1;
         trace_reset();
-        let verdict = P::execute(&scn, &mut res.stats);
+        let mut verdict = P::execute(&scn, &mut res.stats);
+        // a panic whose site is harness code is the harness's own fault, never a violation: the run is set aside and
+        // the orchestrator ends with a harness error (exit 2)
+        if let Verdict::Fail(f) = &verdict {
+            if f.oracle.ends_with("panic") && f.detail.contains("/harness/") && !f.detail.contains("shuttle execution failed") {
+                crate::harness::core::bump(&mut res.stats, "harness_panic");
+                eprintln!("harness panic at run index {}: {}", i, f.detail);
+                verdict = Verdict::Invalid(format!("harness panic: {}", f.detail));
+            }
+        }
         console_discard();
         if let Some(f) = digest_log.as_mut() {
             let cls = match &verdict {
